@@ -2,6 +2,9 @@ package main
 
 import (
 	"fmt"
+	"go/ast"
+	"math/big"
+	"strconv"
 	"go/token"
 	"sort"
 	"strings"
@@ -258,6 +261,20 @@ func runC13(r *Run) {
 		set := strings.Join(uniq(rems), ",")
 		r.Check(set == "100,4,400", "R2", fnID(fn)+"#gregorian-leap-divisors", where, "Year() %% {4,100,400}", "the hand-written leap-year predicate takes Year() modulo {"+set+"}, the Gregorian rule needs exactly {4,100,400}")
 	}
+	// which year length goes with which kind of year: decided only when the function is written in the
+	// recognised form `L := (Y%4 == 0 && Y%100 != 0) || Y%400 == 0; if L {v = c1} else {v = c2}` (operands in
+	// any order, optional negation of the if-condition); other formulations are not judged (a note, not a verdict)
+	if fd, ok := fn.Syntax().(*ast.FuncDecl); ok && fd.Body != nil {
+		verdict, detail := leapBranchAssociation(fd)
+		switch verdict {
+		case "ok":
+			r.OK("R2", fnID(fn)+"#leap-year-gets-366-days", where, detail)
+		case "bad":
+			r.Bad("R2", fnID(fn)+"#leap-year-gets-366-days", where, detail)
+		default:
+			r.Note("C13 leap-branch association not judged: %s", detail)
+		}
+	}
 	// wiring
 	if nh, ok := P.FnOK("app.NewHaqq"); ok {
 		fc, _ := P.constOf("github.com/cosmos/cosmos-sdk/x/auth/types", "FeeCollectorName")
@@ -335,4 +352,155 @@ func fromBlockTime(v ssa.Value, seen map[ssa.Value]bool) bool {
 		}
 	}
 	return false
+}
+
+// leapBranchAssociation: see the call site. Returns "ok"/"bad"/"" (not recognised) and a description.
+func leapBranchAssociation(fd *ast.FuncDecl) (string, string) {
+	unparen := func(e ast.Expr) ast.Expr {
+		for {
+			p, ok := e.(*ast.ParenExpr)
+			if !ok {
+				return e
+			}
+			e = p.X
+		}
+	}
+	// atom: Y % k (==|!=) 0  → (Y name, k, isEq)
+	atom := func(e ast.Expr) (string, int, bool, bool) {
+		b, ok := unparen(e).(*ast.BinaryExpr)
+		if !ok || (b.Op != token.EQL && b.Op != token.NEQ) {
+			return "", 0, false, false
+		}
+		l, rr := unparen(b.X), unparen(b.Y)
+		if lit, ok := l.(*ast.BasicLit); ok && lit.Value == "0" {
+			l, rr = rr, l
+		}
+		lit, ok := rr.(*ast.BasicLit)
+		if !ok || lit.Value != "0" {
+			return "", 0, false, false
+		}
+		m, ok := l.(*ast.BinaryExpr)
+		if !ok || m.Op != token.REM {
+			return "", 0, false, false
+		}
+		id, ok := unparen(m.X).(*ast.Ident)
+		kl, ok2 := unparen(m.Y).(*ast.BasicLit)
+		if !ok || !ok2 {
+			return "", 0, false, false
+		}
+		k, err := strconv.Atoi(kl.Value)
+		if err != nil {
+			return "", 0, false, false
+		}
+		return id.Name, k, b.Op == token.EQL, true
+	}
+	// gregorian: (Y%4==0 && Y%100!=0) || Y%400==0, operands of && and || in any order
+	gregorian := func(e ast.Expr) bool {
+		or, ok := unparen(e).(*ast.BinaryExpr)
+		if !ok || or.Op != token.LOR {
+			return false
+		}
+		for _, pr := range [][2]ast.Expr{{or.X, or.Y}, {or.Y, or.X}} {
+			and, ok := unparen(pr[0]).(*ast.BinaryExpr)
+			if !ok || and.Op != token.LAND {
+				continue
+			}
+			y3, k3, eq3, ok3 := atom(pr[1])
+			if !ok3 || k3 != 400 || !eq3 {
+				continue
+			}
+			for _, ap := range [][2]ast.Expr{{and.X, and.Y}, {and.Y, and.X}} {
+				y1, k1, eq1, ok1 := atom(ap[0])
+				y2, k2, eq2, ok2 := atom(ap[1])
+				if ok1 && ok2 && k1 == 4 && eq1 && k2 == 100 && !eq2 && y1 == y2 && y2 == y3 {
+					return true
+				}
+			}
+		}
+		return false
+	}
+	leapVar := ""
+	ast.Inspect(fd.Body, func(n ast.Node) bool {
+		if as, ok := n.(*ast.AssignStmt); ok && len(as.Lhs) == 1 && len(as.Rhs) == 1 {
+			if id, ok := as.Lhs[0].(*ast.Ident); ok && gregorian(as.Rhs[0]) {
+				leapVar = id.Name
+			}
+		}
+		return true
+	})
+	constOf := func(body *ast.BlockStmt) (*big.Int, string) {
+		var val *big.Int
+		target := ""
+		ast.Inspect(body, func(n ast.Node) bool {
+			as, ok := n.(*ast.AssignStmt)
+			if !ok || len(as.Rhs) != 1 {
+				return true
+			}
+			call, ok := as.Rhs[0].(*ast.CallExpr)
+			if !ok || len(call.Args) != 1 {
+				return true
+			}
+			lit, ok := call.Args[0].(*ast.BasicLit)
+			if !ok {
+				return true
+			}
+			txt := lit.Value
+			if lit.Kind == token.STRING {
+				txt, _ = strconv.Unquote(txt)
+			}
+			if v, ok := new(big.Int).SetString(txt, 10); ok {
+				val = v
+				if id, ok := as.Lhs[0].(*ast.Ident); ok {
+					target = id.Name
+				}
+			}
+			return true
+		})
+		return val, target
+	}
+	verdict, detail := "", "no `if <leap predicate>` with two constant year lengths in the recognised form"
+	ast.Inspect(fd.Body, func(n ast.Node) bool {
+		ifs, ok := n.(*ast.IfStmt)
+		if !ok || ifs.Else == nil {
+			return true
+		}
+		els, ok := ifs.Else.(*ast.BlockStmt)
+		if !ok {
+			return true
+		}
+		cond, neg := unparen(ifs.Cond), false
+		for {
+			u, ok := cond.(*ast.UnaryExpr)
+			if !ok || u.Op != token.NOT {
+				break
+			}
+			cond, neg = unparen(u.X), !neg
+		}
+		isLeapCond := gregorian(cond)
+		if id, ok := cond.(*ast.Ident); ok && leapVar != "" && id.Name == leapVar {
+			isLeapCond = true
+		}
+		if !isLeapCond {
+			return true
+		}
+		a, ta := constOf(ifs.Body)
+		b, tb := constOf(els)
+		if a == nil || b == nil || ta != tb {
+			return true
+		}
+		leap, regular := a, b
+		if neg {
+			leap, regular = b, a
+		}
+		// unit-free: leap/regular = 366/365
+		l365 := new(big.Int).Mul(leap, big.NewInt(365))
+		r366 := new(big.Int).Mul(regular, big.NewInt(366))
+		if l365.Cmp(r366) == 0 {
+			verdict, detail = "ok", fmt.Sprintf("leap years divide by %s, other years by %s (ratio 366:365)", leap, regular)
+		} else {
+			verdict, detail = "bad", fmt.Sprintf("on the leap-year branch the year length is %s and otherwise %s: the ratio is not 366:365 (the two year lengths are swapped or wrong), so every block of a leap year mints by the wrong divisor", leap, regular)
+		}
+		return true
+	})
+	return verdict, detail
 }
